@@ -568,6 +568,7 @@ func c05Facts(repo string, w *strings.Builder) error {
 	if err := c05KindMapper(pkgs["drivers/pg/pgutil"], w); err != nil {
 		return err
 	}
+	c05bWrite(w, pkgs)
 	w.WriteString("\nend Dawgs.Generated.C05\n")
 	return nil
 }
